@@ -266,13 +266,23 @@ def _tree_to_objects(
                         return (ptree.path2id(ppath), ptree.get_file_revision(ppath))
         raise KeyError
 
+    base_intertree = InterTree.get(base_tree, tree)
+
+    def mark_dirty(change):
+        for p in change.path:
+            if p is not None:
+                dirty_dirs.add(osutils.dirname(p))
+        if change.path[0] is not None and change.path[0] != change.path[1]:
+            # The directory the entry left may itself have been renamed.
+            new_dir = base_intertree.find_target_path(osutils.dirname(change.path[0]))
+            if new_dir is not None:
+                dirty_dirs.add(new_dir)
+
     # Find all the changed blobs
     for change in tree.iter_changes(base_tree):
         if change.name[1] in BANNED_FILENAMES:
             # Not exported, but the directories it left (and entered) change.
-            for p in change.path:
-                if p is not None:
-                    dirty_dirs.add(osutils.dirname(p))
+            mark_dirty(change)
             continue
         if change.kind[1] == "file":
             sha1 = tree.get_file_sha1(change.path[1])
@@ -331,10 +341,7 @@ def _tree_to_objects(
             shamap[change.path[1]] = None
         elif change.kind[1] != "directory":
             raise AssertionError(change.kind[1])
-        for p in change.path:
-            if p is None:
-                continue
-            dirty_dirs.add(osutils.dirname(p))
+        mark_dirty(change)
 
     # Fetch contents of the blobs that were changed
     for (path, file_id), chunks in tree.iter_files_bytes(
